@@ -489,6 +489,41 @@ def c02(ctx):
         elif open(out, "rb").read() != lsrc_b:
             viol.add("success-with-wrong-output", detail)
         distinct.add(("large", name))
+    # scale: thousands of chunks wanted and thousands of seed chunks that are NOT wanted (every miss must leave the
+    # bookkeeping of what is still wanted alone)
+    import random
+    rs = random.Random("c02-scale")
+    ssrc_b = rs.randbytes(3 << 20)
+    old_version = bytearray(ssrc_b)
+    for k in range(0, len(old_version), 40000):
+        old_version[k:k + 700] = rs.randbytes(700)
+    unrelated = rs.randbytes(3 << 20)
+    sd = os.path.join(root, "scale")
+    os.makedirs(sd)
+    ssrc, sarc = os.path.join(sd, "src.bin"), os.path.join(sd, "a.cba")
+    with open(ssrc, "wb") as f:
+        f.write(ssrc_b)
+    r = sh([bita, "compress", "--hash-chunking", "RollSum", "--min-chunk-size", "256B", "--avg-chunk-size", "1KiB", "--max-chunk-size", "8KiB", "--compression", "none", "-i", ssrc, sarc], timeout=300)
+    if r.returncode != 0:
+        raise RuntimeError("compress failed: " + r.stderr.decode())
+    for nm, b in (("old.bin", bytes(old_version)), ("unrelated.bin", unrelated)):
+        with open(os.path.join(sd, nm), "wb") as f:
+            f.write(b)
+    scale_cases = 0
+    for name, sargs, stdin_b in (("older-version", ["--seed", os.path.join(sd, "old.bin")], None),
+                                 ("unrelated", ["--seed", os.path.join(sd, "unrelated.bin")], None),
+                                 ("unrelated-then-older-version", ["--seed", os.path.join(sd, "unrelated.bin"), "--seed", os.path.join(sd, "old.bin")], None),
+                                 ("unrelated-on-stdin", ["--seed", "-"], unrelated)):
+        out = os.path.join(sd, name + ".out")
+        r = sh([bita, "clone"] + sargs + [sarc, out], stdin_data=stdin_b, timeout=300)
+        scale_cases += 1
+        detail = {"case": "3 MiB source in ~3000 chunks, seed: " + name}
+        if r.returncode != 0:
+            viol.add("valid-clone-failed", dict(detail, stderr=r.stderr.decode()[-300:]))
+        elif open(out, "rb").read() != ssrc_b:
+            viol.add("success-with-wrong-output", detail)
+        distinct.add(("scale", name))
+        os.remove(out)
     # kinds of seed: the same file given twice plus a third one, a named pipe, a block device
     kind_cases = 0
     a64 = os.path.join(root, "a64.cba")
@@ -544,9 +579,9 @@ def c02(ctx):
         if loop is not None:
             loop.close()
     shutil.rmtree(root, ignore_errors=True)
-    cov = {"evaluations": len(cases) + fault_cases + large_cases + kind_cases, "large_chunk_cases": large_cases, "seed_kind_cases": kind_cases, "write_fault_cases": fault_cases, "distinct_nontrivial": len(distinct), "exhaustive": True, "samples": samples,
+    cov = {"evaluations": len(cases) + fault_cases + large_cases + kind_cases + scale_cases, "large_chunk_cases": large_cases, "seed_kind_cases": kind_cases, "scale_cases": scale_cases, "write_fault_cases": fault_cases, "distinct_nontrivial": len(distinct), "exhaustive": True, "samples": samples,
            "stdin_seed_cases": sum(1 for c in cases if any(k == "-" for k, _ in c[2])),
-           "rule": "real binary, FixedSize(4) archive of a 22-byte source with a duplicate chunk, hash length 64 and 4: every seed of a 7-seed pool (related, unrelated, source itself, empty, shifted by a half word) as stdin seed and as file seed, every ordered pair of 5 seeds as (stdin,file), (file,stdin) and (file,file), one triple; oracle: exit 0 and output == source; plus seeded clones of a 16-chunk source under a file size limit at every chunk boundary (writes beyond it fail with EFBIG) x 3 seed variants x {new, existing output}: reported success implies output == source; plus a source of 3 MiB chunks (more than one write(2) takes) cloned with a seed file, a stdin seed and no seed; the same seed file given twice plus a third, a seed that is a named pipe, a seed that is a loop block device; non-trivial = distinct seed configurations that ran to the end"}
+           "rule": "real binary, FixedSize(4) archive of a 22-byte source with a duplicate chunk, hash length 64 and 4: every seed of a 7-seed pool (related, unrelated, source itself, empty, shifted by a half word) as stdin seed and as file seed, every ordered pair of 5 seeds as (stdin,file), (file,stdin) and (file,file), one triple; oracle: exit 0 and output == source; plus seeded clones of a 16-chunk source under a file size limit at every chunk boundary (writes beyond it fail with EFBIG) x 3 seed variants x {new, existing output}: reported success implies output == source; plus a source of 3 MiB chunks (more than one write(2) takes) cloned with a seed file, a stdin seed and no seed; a 3 MiB source in ~3000 chunks with an older version / 3 MiB of unrelated data / both / unrelated data on stdin as seeds; the same seed file given twice plus a third, a seed that is a named pipe, a seed that is a loop block device; non-trivial = distinct seed configurations that ran to the end"}
     return result(ctx["pid"], "exploration", cov, viol, t0, ["A5"])
 
 
